@@ -330,3 +330,15 @@ Fixpoint stale_after (ev : env) (ws : cluster * sstate) (stale : bool) (h : list
     let stale' := if requests_resync ev st e then false else stale || first_node_event st (fst ws) e in
     stale_after ev (sstep ev ws e) stale' r
   end.
+
+(* ---- which endpoint slices a Service is processed with (internal/k8s/controllers: epSlicesForService through the
+   field index epslices.SlicesServiceIndex = "<namespace>/<value of the kubernetes.io/service-name label>"), on the
+   single-service path AND on the reprocess-all path of the ServiceReconciler ---- *)
+Record kslice := { ks_ns : N; ks_label : option N; ks_eps : list bep }.
+Definition slice_of (ns name : N) (s : kslice) : bool :=
+  (ks_ns s =? ns) && match ks_label s with Some l => l =? name | None => false end.
+Definition slices_for (ns name : N) (all : list kslice) : list (list bep) :=
+  map ks_eps (filter (slice_of ns name) all).
+(* grouping by the bare label (what the rejected "list once" variant of reprocessAll did) *)
+Definition slices_by_label (name : N) (all : list kslice) : list (list bep) :=
+  map ks_eps (filter (fun s => match ks_label s with Some l => l =? name | None => false end) all).
